@@ -46,11 +46,18 @@ def run_seed_of(seed: int, prop: str, i: int) -> int:
 
 def load_known(prop: str) -> list[dict]:
     p = os.path.join(VERIF, "known_findings.json")
-    try:
-        with open(p) as f:
-            data = json.load(f)
-    except FileNotFoundError:
-        return []
+    data = None
+    for _attempt in range(5):
+        try:
+            with open(p) as f:
+                data = json.load(f)
+            break
+        except FileNotFoundError:
+            return []
+        except json.JSONDecodeError:
+            time.sleep(0.2)  # being rewritten by an editor: retry
+    if data is None:
+        raise RuntimeError("known_findings.json is not valid JSON")
     out = []
     for e in data.get("findings", []):
         if e.get("property") == prop:
